@@ -8,6 +8,7 @@ import (
 	"fmt"
 	"os"
 	"path/filepath"
+	"regexp"
 	"runtime/pprof"
 	"strconv"
 	"strings"
@@ -86,7 +87,15 @@ func main() {
 		c.Census["module functions (hand-written, with body)"] = len(p.HandFuncs())
 		res.Merge(c, cfg.String())
 	}
+	selfFail := false
+	if *tier == "thorough" {
+		selfFail = runControls(*repo, *prop, pr, res)
+	}
 	code := res.Finish(*verif, known)
+	if selfFail && code == 0 {
+		fmt.Println("SELFTEST-FAIL: a control mutant that applies was not detected by its rule (checker defect, not a property violation)")
+		code = 3
+	}
 	pprof.StopCPUProfile()
 	os.Exit(code)
 }
@@ -96,4 +105,91 @@ func envOr(k, d string) string {
 		return v
 	}
 	return d
+}
+
+// runControls applies each control mutant of the property in memory and
+// requires its rule to report it. Returns true if an applicable control
+// went undetected.
+func runControls(repo, prop string, pr *rules.Prop, res *core.Result) bool {
+	type outcome struct {
+		Name, File, Rule, Result string
+	}
+	var outs []outcome
+	fail := false
+	for _, ct := range rules.Controls {
+		if ct.Prop != prop {
+			continue
+		}
+		o := outcome{Name: ct.Name, File: ct.File, Rule: ct.Rule}
+		abs := filepath.Join(repo, ct.File)
+		src, err := os.ReadFile(abs)
+		if err != nil {
+			o.Result = "skipped: file not found"
+			outs = append(outs, o)
+			continue
+		}
+		re, err := regexp.Compile("(?s)" + ct.Old)
+		if err != nil || ct.Rule == "" {
+			o.Result = "skipped: disabled"
+			outs = append(outs, o)
+			continue
+		}
+		if n := len(re.FindAllIndex(src, -1)); n != 1 {
+			o.Result = fmt.Sprintf("skipped: anchor text matches %d times", n)
+			outs = append(outs, o)
+			continue
+		}
+		mutated := re.ReplaceAll(src, []byte(ct.New))
+		p, err := load.Load(repo, load.Config{}, map[string][]byte{abs: mutated})
+		if err != nil {
+			o.Result = "skipped: mutant does not type-check (" + firstLine(err.Error()) + ")"
+			outs = append(outs, o)
+			continue
+		}
+		c := core.NewCtx(p, prop, "thorough")
+		for _, r := range pr.Rules {
+			rules.RunRule(c, r)
+		}
+		hit := false
+		for _, f := range c.Findings {
+			if f.Rule == ct.Rule {
+				hit = true
+			}
+		}
+		if hit {
+			o.Result = "detected"
+		} else {
+			o.Result = "NOT DETECTED"
+			fail = true
+			fmt.Printf("SELFTEST-FAIL control %q (%s) was not reported by %s\n", ct.Name, ct.File, ct.Rule)
+		}
+		outs = append(outs, o)
+	}
+	if res.Extra == nil {
+		res.Extra = map[string]interface{}{}
+	}
+	res.Extra["control_mutants"] = outs
+	n, d := 0, 0
+	for _, o := range outs {
+		if !strings.HasPrefix(o.Result, "skipped") {
+			n++
+		}
+		if o.Result == "detected" {
+			d++
+		}
+	}
+	res.Extra["control_mutants_applied"] = n
+	res.Extra["control_mutants_detected"] = d
+	fmt.Printf("%s controls: %d applied, %d detected, %d skipped\n", prop, n, d, len(outs)-n)
+	return fail
+}
+
+func firstLine(s string) string {
+	if i := strings.Index(s, "\n"); i >= 0 {
+		s = s[:i]
+	}
+	if len(s) > 160 {
+		s = s[:160]
+	}
+	return s
 }
